@@ -171,7 +171,14 @@ class DsgeCrossoverChains(LinearStructured):
     def strategy(self, tier):
         fl = Flags(dependent=False, user_mh=False, max_concrete=7, min_extra_concrete=3, max_abstract=3)
         idx = st.integers(0, 30)
-        chain = st.lists(st.one_of(st.builds(lambda i, j: ["crossover", i, j], idx, idx), st.builds(lambda i, j: ["crossover", i, j], idx, idx), st.builds(lambda i: ["mutate", i], idx), st.just(["create"])), min_size=4, max_size=14)
+        # a crossover is often followed by mutations of its two children (pool positions -1, -2): a
+        # child holds an EMPTY gene list for a symbol its donor parent never read
+        block = st.one_of(
+            st.builds(lambda i, j, n: [["crossover", i, j]] + [["mutate", -1], ["mutate", -2]] * n, idx, idx, st.integers(0, 3)),
+            st.builds(lambda i: [["mutate", i]], idx),
+            st.just([["create"]]),
+        )
+        chain = st.lists(block, min_size=3, max_size=8).map(lambda bs: [op for b in bs for op in b])
         return st.builds(
             lambda c, ops: {**c, "ops": [["create"], ["create"], ["create"]] + ops},
             world_cases(fl, reps=self.reps, deciders=("maxdepth",), max_ops=1, depth_extras=(2, 3, 4), with_map=False),
